@@ -469,6 +469,7 @@ def write_evidence_file(tier, seed, jobs, recs, audit, wall, reported, stopped, 
                 "runs_with_other_api_calls_between_draws": sum(1 for r in ok if r["job"].get("ops")),
                 "runs_with_mixed_size_call_cycles": sum(1 for r in ok if r["job"].get("cycle")),
                 "runs_with_cas_failure_rate_override": sum(1 for r in ok if any("compare-exchange" in f for f in r["job"].get("extra_flags", []))),
+                "runs_with_reported_cpu_count_override(default 1)": sum(1 for r in ok if any("num-cpus" in f for f in r["job"].get("extra_flags", []))),
                 "runs_with_address_reuse_override": sum(1 for r in ok if any("address-reuse" in f for f in r["job"].get("extra_flags", []))),
                 "reseed_threshold_crossings(64KiB per thread)": sum(1 for r in ok if runner.words_of(r["job"]) * 8 // max(1, r["job"]["K"] + r["job"]["main"]) >= 65536),
                 "fault_sites_in_volute_code": 0,
